@@ -131,6 +131,7 @@ def make_families(ns, ps, ks):
                         except Exception as ex:
                             acc.concrete(f"{name}.runs", False, dict(info, family=name, exception=f"{type(ex).__name__}: {ex}"[:160]))
                             continue
+                        acc.inc("translator_ok")      # the family function also ran natively (scale 1)
                         b = [rv(x) for x in np.asarray(b).ravel()]
                         a = rv(a)
                         b1 = [float(x) for x in np.asarray(b1).ravel()]
